@@ -98,3 +98,105 @@ if __name__ == "__main__":
         for e in evs:
             f.write(json.dumps(e) + "\n")
     print(len(evs))
+
+
+def project_d(lines):
+    """Project a raw harness log onto one-event-per-Engine.tla-action form (spec/Trace_Engine.tla).
+    Returns a list of runs, each a list of events starting with its cfg; runs the design spec cannot represent
+    (duplicate roots on the command line) are left out."""
+    raws = [json.loads(l) for l in lines if l.strip()]
+    runs, cur = [], None
+    for r in raws:
+        if r["ev"] == "cfg":
+            cur = [r]
+            runs.append(cur)
+        elif cur is not None:
+            cur.append(r)
+    out = []
+    for run in runs:
+        c = run[0]["cfg"]
+        if len(set(c["roots"])) != len(c["roots"]) or sorted(c["roots"]) != list(c["roots"]):
+            continue
+        cfg = {"n": c["n"], "kind": c["kind"], "deps": c["deps"], "roots": c["roots"], "watch": c.get("watch", False),
+               "inh": c.get("inh") or [[] for _ in range(c["n"])], "rec": c.get("rec", []), "slow": c.get("slow", [])}
+        evs = [{"a": "cfg", "cfg": cfg}]
+
+        def post_after(i, t):
+            for j in range(i + 1, len(run)):
+                e = run[j]
+                if e.get("t") != t:
+                    continue
+                if e["ev"] == "idle":
+                    p = dict(e["st"])
+                    p["unavail_b"] = [tnum(x) for x in p["unavail_b"]]
+                    p["unavail_s"] = [tnum(x) for x in p["unavail_s"]]
+                    p["req_b"] = [tnum(x) for x in p["req_b"]]
+                    p["req_s"] = [tnum(x) for x in p["req_s"]]
+                    p["inflight"] = bool(e.get("inflight", False))
+                    p["running"] = bool(e.get("running", False))
+                    p["actual_b"] = [tnum(x) for x in e.get("actual_b", [])]
+                    p["actual_s"] = [tnum(x) for x in e.get("actual_s", [])]
+                    p["has"] = True
+                    return p
+                if e["ev"] in ("actor_exit", "recv", "wake_inval", "wake_term", "wake_build"):
+                    break
+            return {"has": False}
+
+        waited = False
+        for i, r in enumerate(run):
+            ev = r["ev"]
+            if ev in ("h_end", "h_exit", "h_stall"):
+                break
+            if ev == "root_request":
+                evs += [{"a": "rootreq"}, {"a": "rootreq"}]
+            elif ev == "relay_recv":
+                o = r["out"]
+                if o["type"] == "error":
+                    evs.append({"a": "take", "s": tnum(o["from"]), "dest": -1, "ty": "err", "k": "b", "act": False})
+                else:
+                    m = o["msg"]
+                    evs.append({"a": "take", "s": tnum(m["from"]), "dest": tnum(o["dest"]), "ty": TY[m["type"]], "k": K[m["kind"]],
+                                "act": bool(m.get("actual", False))})
+            elif ev == "recv":
+                m = r["msg"]
+                evs.append({"a": "recv", "t": tnum(r["t"]), "ty": TY[m["type"]], "k": K[m["kind"]], "from": tnum(m["from"]),
+                            "act": bool(m.get("actual", False)), "post": post_after(i, r["t"])})
+            elif ev == "wake_inval":
+                evs.append({"a": "inval", "t": tnum(r["t"]), "post": post_after(i, r["t"])})
+            elif ev == "wake_term":
+                evs.append({"a": "term", "t": tnum(r["t"]), "post": post_after(i, r["t"])})
+            elif ev == "incr_checked":
+                evs.append({"a": "check", "t": tnum(r["t"]), "skip": bool(r.get("skip"))})
+            elif ev == "vbuild_wait":
+                evs += [{"a": "spawn", "t": tnum(r["t"])}, {"a": "sread", "t": tnum(r["t"])}]
+            elif ev == "h_finish":
+                evs.append({"a": "sfinish", "t": tnum(r["t"]), "ok": r["outcome"] == "ok"})
+            elif ev == "vbuild_done" and r["outcome"] == "cancelled":
+                evs.append({"a": "cancelled", "t": tnum(r["t"])})
+            elif ev == "incr_saved":
+                evs.append({"a": "record", "t": tnum(r["t"])})
+            elif ev == "wake_build":
+                evs.append({"a": "result", "t": tnum(r["t"]), "res": r["result"], "post": post_after(i, r["t"])})
+            elif ev == "h_edit":
+                evs.append({"a": "edit", "t": tnum(r["t"])})
+            elif ev == "h_notify":
+                evs.append({"a": "notify", "t": tnum(r["t"])})
+            elif ev == "h_signal":
+                evs.append({"a": "signal"})
+            elif ev == "root_loop_exit":
+                if r.get("signalled"):
+                    evs.append({"a": "seesig"})
+                if not cfg["watch"]:
+                    waits = any(x["ev"] == "root_wait_signal" for x in run[i + 1:i + 3])
+                    evs.append({"a": "loopexit", "waits": waits})
+            elif ev == "root_wait_signal":
+                waited = True
+            elif ev == "terminate_begin":
+                if waited:
+                    evs.append({"a": "waitsigdone"})
+                    waited = False
+                evs.append({"a": "terminate"})
+            elif ev == "terminate_end":
+                evs.append({"a": "exit"})
+        out.append(evs)
+    return out
